@@ -17,6 +17,7 @@ transforms:
     guardclause trailing `if c: BODY` of a function -> `if not c: return` BODY
     ifexp       `x = a if c else b` / `return a if c else b` -> if / else statements
     compr       `xs = [E for v in IT if C]` -> explicit loop with append
+    matchtoif   `match S:` over value patterns -> `_m_mm = S; if _m_mm == V1: ... elif ...`
 """
 
 from __future__ import annotations
@@ -372,7 +373,51 @@ class ComprToLoop(ast.NodeTransformer):
     visit_AsyncFunctionDef = visit_FunctionDef
 
 
-TRANSFORMS = {"tmpreturn": TmpReturn, "returnelse": ReturnElse, "guardclause": GuardClause, "ifexp": IfExpToStmt, "compr": ComprToLoop, "identity": None, "rename": Rename, "invert": Invert, "nest": Nest, "dewalrus": DeWalrus, "demorgan": DeMorgan}
+class MatchToIf(ast.NodeTransformer):
+    """`match S: case V1: A  case V2 | V3: B  case _: C` (value / or-of-value patterns and an optional final wildcard, no
+    guards, no captures)  ->  `_m_mm = S` / `if _m_mm == V1: A elif _m_mm == V2 or _m_mm == V3: B else: C`.  A value
+    pattern compares with `==`, exactly as the rewritten test does."""
+
+    def visit_Match(self, node: ast.Match):
+        self.generic_visit(node)
+
+        def vals(p):
+            if isinstance(p, ast.MatchValue):
+                return [p.value]
+            if isinstance(p, ast.MatchOr) and all(isinstance(q, ast.MatchValue) for q in p.patterns):
+                return [q.value for q in p.patterns]
+            return None
+
+        cases = []
+        for i, c in enumerate(node.cases):
+            if c.guard is not None:
+                return node
+            v = vals(c.pattern)
+            if v is not None:
+                cases.append((v, c.body))
+            elif isinstance(c.pattern, ast.MatchAs) and c.pattern.pattern is None and c.pattern.name is None and i == len(node.cases) - 1:
+                cases.append((None, c.body))
+            else:
+                return node
+        subj = ast.Name(id="_m_mm", ctx=ast.Load())
+        pre = ast.copy_location(ast.Assign(targets=[ast.Name(id="_m_mm", ctx=ast.Store())], value=node.subject), node)
+
+        def test(vs):
+            ts = [ast.Compare(left=ast.Name(id="_m_mm", ctx=ast.Load()), ops=[ast.Eq()], comparators=[v]) for v in vs]
+            return ts[0] if len(ts) == 1 else ast.BoolOp(op=ast.Or(), values=ts)
+
+        orelse: list[ast.stmt] = []
+        for vs, body in reversed(cases):
+            if vs is None:
+                orelse = body
+            else:
+                orelse = [ast.copy_location(ast.If(test=test(vs), body=body, orelse=orelse), node)]
+        if not orelse or not isinstance(orelse[0], ast.If):
+            return node
+        return [pre] + orelse
+
+
+TRANSFORMS = {"matchtoif": MatchToIf, "tmpreturn": TmpReturn, "returnelse": ReturnElse, "guardclause": GuardClause, "ifexp": IfExpToStmt, "compr": ComprToLoop, "identity": None, "rename": Rename, "invert": Invert, "nest": Nest, "dewalrus": DeWalrus, "demorgan": DeMorgan}
 
 
 def main() -> int:
